@@ -9,6 +9,33 @@ from datetime import timedelta
 from native.explore_movingwindow import T0, config_passthrough
 
 
+async def first_window(period_s, align_offset_s):
+    """C07: the first window end of a new Resampler lies on the align_to grid, after the creation instant and at most
+    two periods later - also for an align_to in the (far) future.  (Reads the resampler's `_window_end`.)"""
+    from datetime import datetime, timezone
+    from frequenz.sdk.timeseries import ResamplerConfig
+    from frequenz.sdk.timeseries._resampling import Resampler
+    period = timedelta(seconds=period_s)
+    before = datetime.now(timezone.utc)
+    align = None if align_offset_s is None else before.replace(microsecond=0) + timedelta(seconds=align_offset_s)
+    res = Resampler(ResamplerConfig(resampling_period=period, align_to=align))
+    after = datetime.now(timezone.utc)
+    try:
+        we = res._window_end  # pylint: disable=protected-access
+    except AttributeError as e:
+        return f"SPEC: {e}"
+    finally:
+        await res.stop()
+    if not (before < we <= after + 2 * period):
+        return (f"first window end {we.isoformat()} for a resampler created at {before.isoformat()} with period {period_s} s and "
+                f"align_to {None if align is None else align.isoformat()}: not within (creation, creation + 2 periods]")
+    if align is not None:
+        k = (we - align) / period
+        if abs(k - round(k)) > 1e-9:
+            return f"first window end {we.isoformat()} is not on the grid align_to {align.isoformat()} + k * {period_s} s"
+    return None
+
+
 def run(req):
     t0 = time.time()
     cases = list(itertools.product([None, T0 + timedelta(seconds=0.63), T0, T0 - timedelta(hours=3, seconds=0.7)],
@@ -19,11 +46,22 @@ def run(req):
         if f:
             failure = (f, {"resampler_config.align_to": str(ac), "window align_to": str(aw)})
             break
-    out = {"status": "failed" if failure else "ok", "evaluations": len(cases), "distinct": len(cases), "known": {},
+    n_first = 0
+    for period_s, off in itertools.product([1.0, 2.0, 10.0], [None, -3.7, -86400.3, 0.0, 12.7, 2.3 * 10, 3600.0, 86400.0]):
+        if failure:
+            break
+        n_first += 1
+        f = asyncio.run(first_window(period_s, off))
+        if f and f.startswith("SPEC:"):
+            continue
+        if f:
+            failure = (f, {"period_s": period_s, "align_to_offset_from_creation_s": off})
+    out = {"status": "failed" if failure else "ok", "evaluations": len(cases) + n_first, "distinct": len(cases) + n_first, "known": {},
            "samples": [{"resampler_config.align_to": str(a), "window align_to": str(b)} for a, b in cases[:2]],
            "wall_s": round(time.time() - t0, 2), "exhaustive": True,
            "rule": "8 combinations of resampler_config.align_to (None, off-grid past, on-grid, far past off-grid) and the "
-                   "window's own align_to (epoch grid, +0.4 s); all distinct"}
+                   "window's own align_to (epoch grid, +0.4 s); 24 (period, align_to) pairs for the first window end of a new Resampler "
+                   "(align_to None, past, now, near and far future); all distinct"}
     if failure:
         out["failure"] = {"clause": "MovingWindow resamples with the given configuration", "detail": failure[0]}
         out["inputs"] = failure[1]
